@@ -19,9 +19,13 @@ pub(crate) fn marker<IntT: for<'a> UInt<'a>>(a: &MergeSkaArray<IntT>) -> usize {
     a.k
 }
 
-// markers: load("b") gives 2, load("c") 3, any other name 9
+// markers: load("b") gives 2, load("c") 3, any other name 9; load("x") fails (a file that cannot be read with this
+// integer width, e.g. a k > 31 file when the first one was k <= 31)
 pub(crate) fn load_stub<IntT: for<'a> UInt<'a>>(filename: &str) -> Result<MergeSkaArray<IntT>, Box<dyn std::error::Error>> {
     let b = filename.as_bytes();
+    if b.len() == 1 && b[0] == b'x' {
+        return Err(Box::new(std::fmt::Error));
+    }
     let mark = if b.len() == 1 && b[0] == b'b' {
         2
     } else if b.len() == 1 && b[0] == b'c' {
